@@ -60,16 +60,17 @@ func SendRequest(req *Request) (*Response, error) {
 // and check key existence whether header value is empty or notset.
 type headerKeyStore map[string]struct{}
 
-// Distinguish whether header is actually assigned or not
+// Distinguish whether header is actually assigned or not.
+// Header names are case-insensitive, so the map is keyed by the canonical name like http.Header.
 func (h headerKeyStore) IsAssigned(name string) bool {
-	_, v := h[name]
+	_, v := h[http.CanonicalHeaderKey(name)]
 	return v
 }
 
 func (h headerKeyStore) Assign(name string) {
-	h[name] = struct{}{}
+	h[http.CanonicalHeaderKey(name)] = struct{}{}
 }
 
 func (h headerKeyStore) Unassign(name string) {
-	delete(h, name)
+	delete(h, http.CanonicalHeaderKey(name))
 }
